@@ -588,6 +588,10 @@ def run(model, rep, tier):
     check_zero_derivative_kinds(model, rep)
     from rules.c13 import check_monomial_ravel
     check_monomial_ravel(model, rep, rule='R04.6')
+    from rules import round4 as _r4
+    rep.rule('R04.10', 'lower() never simplifies (derivative wrappers survive); the root-coordinate derivative of a non-square map is the left inverse (L^T L)^-1 L^T')
+    _r4.check_lower_does_not_simplify(model, rep, 'R04.10')
+    _r4.check_pseudo_inverse(model, rep, 'R04.10')
     rep.require('R04.1', 50)
     rep.require('R04.2', 16)
     rep.require('R04.3', 8)
